@@ -215,6 +215,30 @@ def mesh_from_json(j):
     return meshes.AMesh(j["faces"], np.array(j["xyz"], dtype=float), j.get("closed", False), j.get("kind", "replay"))
 
 
+# Everything a program's operations build lazily and keep on the Grid (Grid._ds).  A "warm" grid has all of it before the
+# program starts, a "cold" grid is fresh from the constructor; both states are reproducible, so a replay — which
+# rebuilds the grids — sees exactly the grid state of the run (the grids shared by the programs of a run are warm).
+WARM = ["edge_node_connectivity", "face_edge_connectivity", "edge_face_connectivity", "node_face_connectivity",
+        "n_nodes_per_face", "face_lon", "face_lat", "edge_lon", "edge_lat", "node_x", "face_x", "edge_x",
+        "edge_face_distances", "edge_node_distances", "hole_edge_indices", "face_areas"]
+
+
+def warm_grid(g):
+    for nm in WARM:
+        try:
+            getattr(g, nm)
+        except Exception:
+            pass
+    return g
+
+
+def grid_vars(g):
+    try:
+        return sorted(set(g.coordinates) | set(g.connectivity) | set(g.descriptors))
+    except Exception:
+        return []
+
+
 def counts_of(g):
     return (int(g.n_node), int(g.n_edge), int(g.n_face))
 
@@ -448,10 +472,20 @@ def apply_x(desc, d, xr):
     raise KeyError(m)
 
 
+def resolve_idx(desc, u):
+    """the index (list) of a `ux_isel` descriptor; with `wrap` the entries are taken modulo the CURRENT grid's element
+    count (used by the chained-selection stream, where the size of the intermediate sub-grid is not known in advance)"""
+    idx = desc["idx"]
+    if desc.get("wrap"):
+        n = int(getattr(u.uxgrid, desc["dim"]))
+        idx = [int(i) % n for i in idx] if isinstance(idx, list) else int(idx) % n
+    return idx
+
+
 def apply_ux(desc, u, world):
     m = desc["m"]
     if m == "ux_isel":
-        idx = desc["idx"]
+        idx = resolve_idx(desc, u)
         return u.isel(**{desc["dim"]: (np.array(idx) if desc.get("as_array") else idx)})
     if m == "ux_subset":
         return u.subset.nearest_neighbor(tuple(desc["center"]), k=desc["k"], element=desc["element"])
@@ -567,6 +601,37 @@ def model_op(desc, pre_dims, post_dims, extra):
 # ----------------------------------------------------------------------------------------------
 
 
+def element_keys(g, dim):
+    """a geometric name for every element of a grid, through public API only: a node is its (lon, lat); a face / an edge
+    is the set of its nodes' (lon, lat).  Sub-grids keep the coordinates bit for bit, so the keys identify WHICH element of
+    the source grid an element of a sub-grid is, independently of any index list the library records."""
+    lon, lat = np.asarray(g.node_lon.values), np.asarray(g.node_lat.values)
+    nk = [(float(a), float(b)) for a, b in zip(lon, lat)]
+    if dim == "n_node":
+        return nk
+    conn = np.asarray((g.face_node_connectivity if dim == "n_face" else g.edge_node_connectivity).values)
+    return [frozenset(nk[int(i)] for i in row if int(i) != common.INT_FILL) for row in conn]
+
+
+def index_map(src, sub, dim):
+    """for every element of `sub` (along `dim`) the index of the same element in `src`; None when not identifiable"""
+    try:
+        ks, kt = element_keys(src, dim), element_keys(sub, dim)
+    except Exception:
+        return None
+    pos = {}
+    for i, k in enumerate(ks):
+        if k in pos:
+            return None          # ambiguous geometry (duplicate elements in the source): no oracle
+        pos[k] = i
+    out = []
+    for k in kt:
+        if k not in pos:
+            return None
+        out.append(pos[k])
+    return out
+
+
 def arrays_equal(a, b):
     if a.dtype.kind == "O" or b.dtype.kind == "O":
         # e.g. shift() of a boolean array: object dtype holding NaN
@@ -622,9 +687,11 @@ def run_program(env, inp, out, tag="gen", chooser=None, depth=0):
     judge = True
     d = ctx.driver
     ms = [mesh_from_json(j) for j in inp["grids"]]
-    base = inp.get("_grids_cache")
+    base = inp.get("_grids_cache") if inp.get("warm") else None
     if base is None:
         base = [meshes.to_grid(m, ux) for m in ms]
+        if inp.get("warm"):
+            base = [warm_grid(g) for g in base]
     world = World(ux, xr, base, [m.closed for m in ms])
     u, t = make_start(ux, xr, world, inp["start"])
     state = world.observe(u)
@@ -668,14 +735,14 @@ def run_program(env, inp, out, tag="gen", chooser=None, depth=0):
             r = tr.trace((lambda: apply_ux(desc, u, world)) if is_ux else (lambda: apply_x(desc, u, xr)))
         except Exception as e:
             err, r = e, None
-        here = dict(grids=inp["grids"], start=inp["start"], program=done + [desc])
+        here = dict(grids=inp["grids"], start=inp["start"], program=done + [desc], warm=bool(inp.get("warm")))
         if err is not None:
             if is_ux:
                 sub = state["grid"] >= 0 and world.derived[state["grid"]]
                 gcoord = any(set(v.dims) & set(GRID_DIMS) for v in u.coords.values())
                 key = f"{name}:{type(err).__name__}:{'sub-grid' if sub else 'grid-coord' if gcoord else 'other'}"
                 env.ux_raises[key] = env.ux_raises.get(key, 0) + 1
-                if not sub and not gcoord and judge:
+                if (not sub or m in ("ux_isel", "ux_subset")) and not gcoord and judge:
                     mo = model_op(desc, pre_dims, None, dict(counts=(1, 1, 1), closed=world.closed[state["grid"]]))
                     ms_ = d.ask("C10.step", env.table_codes(), enc_state(state), mo)
                     if ms_ != "none" and m in ("ux_isel", "ux_subset"):
@@ -683,6 +750,8 @@ def run_program(env, inp, out, tag="gen", chooser=None, depth=0):
                         # ANY layout: indexing is by name, so it is defined wherever the element dimension sits
                         gd0 = [dd for dd, _ in pre_dims if dd in GRID_DIMS][0]
                         layout = "element-dim-last" if pre_dims[-1][0] == gd0 else "element-dim-not-last"
+                        if sub:
+                            layout = "on-sub-grid/" + layout
                         out["failures"].append(dict(
                             signature=f"C10/op={name}/{layout}/raises={type(err).__name__}",
                             what=(f"{name} on a grid dimension raises {type(err).__name__} for an array with dims {pre_dims} "
@@ -763,28 +832,40 @@ def run_program(env, inp, out, tag="gen", chooser=None, depth=0):
             bad_values = same_values(r, t_next)
         elif m in ("ux_isel", "ux_subset") and state["grid"] >= 0 and len([1 for dd, _ in pre_dims if dd in GRID_DIMS]) == 1:
             gd0 = [dd for dd, _ in pre_dims if dd in GRID_DIMS][0]
-            ref = None
+            refs = []
             if m == "ux_isel" and desc["dim"] == "n_face" and gd0 == "n_face":
-                # independent oracle: plain xarray's isel BY NAME with the requested faces
-                idx0 = desc["idx"] if isinstance(desc["idx"], list) else [desc["idx"]]
-                ref = t.isel({gd0: idx0})
-                ctx.hit("grid-isel-values:plain-xarray-isel-by-name")
-            elif pre_dims[-1][0] != gd0:
+                # independent oracle 1: plain xarray's isel BY NAME with the requested faces
+                idx0 = resolve_idx(desc, u)
+                idx0 = idx0 if isinstance(idx0, list) else [idx0]
+                refs.append(("plain-xarray-isel-by-name-at-requested-faces", t.isel({gd0: idx0})))
+            if post["grid"] >= 0 and cur_grid is not None:
+                # independent oracle 2, for every centring, on base grids and on sub-grids alike: identify each element of
+                # the attached sub-grid in the CURRENT grid by its geometry and index the plain twin by name with that list
+                imap = index_map(cur_grid, world.grids[post["grid"]], gd0)
+                if imap is not None and len(imap) == dict(post["dims"]).get(gd0):
+                    refs.append(("plain-xarray-isel-by-name-at-geometric-indices", t.isel({gd0: imap})))
+                else:
+                    ctx.hit("grid-isel-values:geometric-oracle-unavailable")
+            if pre_dims[-1][0] != gd0:
                 # metamorphic oracle: the same selection on the canonical layout (element dimension last), moved back
                 try:
                     can = apply_ux(desc, u.transpose(..., gd0), world)
-                    ref = plain_of(xr, can).transpose(*[dd for dd, _ in pre_dims])
-                    ctx.hit("grid-isel-values:isel-then-transpose")
+                    refs.append(("isel-then-transpose", plain_of(xr, can).transpose(*[dd for dd, _ in pre_dims])))
                 except Exception:
-                    ref = None
-            if ref is not None:
+                    pass
+            if refs and world.derived[state["grid"]]:
+                ctx.hit("grid-isel:chained-on-sub-grid:" + gd0)
+            for oname, ref in refs:
+                ctx.hit("grid-isel-values:" + oname)
                 a, b = np.asarray(r.values), np.asarray(ref.values)
                 if tuple(map(str, r.dims)) != tuple(map(str, ref.dims)) or a.shape != b.shape:
-                    bad_values = f"dims/shape {list(zip(map(str, r.dims), a.shape))} vs {list(zip(map(str, ref.dims), b.shape))}"
+                    bad_values = f"[{oname}] dims/shape {list(zip(map(str, r.dims), a.shape))} vs {list(zip(map(str, ref.dims), b.shape))}"
                 elif a.dtype != b.dtype:
-                    bad_values = f"dtype {a.dtype} vs {b.dtype}"
+                    bad_values = f"[{oname}] dtype {a.dtype} vs {b.dtype}"
                 elif not arrays_equal(a, b):
-                    bad_values = "values"
+                    bad_values = f"[{oname}] values"
+                if bad_values:
+                    break
             if pre_dims[-1][0] != gd0:
                 ctx.hit("grid-isel:element-dim-not-last")
         clauses = verdict[5:].split(",") if verdict.startswith("fail") else []
@@ -851,7 +932,8 @@ def run_program(env, inp, out, tag="gen", chooser=None, depth=0):
                 what = (f"{name} on a grid dimension: result dims {post['dims']} are not the input dims {pre_dims} with the grid "
                         "dimension's length replaced by the sub-grid's count")
             elif is_ux:
-                sig = f"C10/op={name}/values-differ-from-isel-by-name"
+                sig = f"C10/op={name}/values-differ-from-isel-by-name" + (
+                    "/on-sub-grid" if state["grid"] >= 0 and world.derived[state["grid"]] else "")
                 what = (f"{name} on dims {pre_dims}: {bad_values} differ from indexing the grid dimension BY NAME "
                         "(plain xarray isel on the same data / the same selection on the transposed array)")
             else:
@@ -1040,6 +1122,8 @@ def candidates(rng, t, state, world_counts, closed, derived, heap_n):
             # positional implementation raises on the latter and silently slices the wrong axis on the former).
             last_len = sizes[dims[-1]]
             reps = 3 if dims[-1] == gdims[0] else 6
+            if derived[g]:
+                reps += 6    # chained selections: a selection applied to the result of a selection
             for _ in range(reps):
                 dim = rng.choice(["n_face", "n_face", "n_node", "n_edge"])
                 n = cnt[GRID_DIMS[dim]]
@@ -1054,7 +1138,7 @@ def candidates(rng, t, state, world_counts, closed, derived, heap_n):
                     idx = sorted(rng.sample(range(n), rng.randint(1, min(n, 6))))
                     arr = rng.random() < 0.5
                 out.append(dict(m="ux_isel", dim=dim, idx=idx, as_array=arr))
-            if not derived[g]:
+            if True:
                 out.append(dict(m="ux_subset", center=[rng.choice([-20.0, 0.0, 35.0, 150.0]), rng.choice([-30.0, 0.0, 25.0, 60.0])],
                                 k=rng.randint(1, min(4, cnt[2])), element=rng.choice(["nodes", "face centers", "edge centers"])))
         if dims[-1] == gdims[0] and not derived[g]:
@@ -1121,7 +1205,7 @@ def minimise(env, out):
         sp = start_from(u, state["grid"])
         if sp is None:
             continue
-        cand = dict(grids=f["input"]["grids"], start=sp, program=[prog[-1]], _grids_cache=f["input"].get("_grids_cache"))
+        cand = dict(grids=f["input"]["grids"], start=sp, program=[prog[-1]], warm=bool(f["input"].get("warm")))
         o2 = dict(failures=[], mismatches=[], skipped=[])
         try:
             run_program(env, cand, o2, tag="min")
@@ -1220,6 +1304,42 @@ def layouts(env, rng, base, wc):
     return progs
 
 
+def selection_chains(env, rng, base, wc):
+    """two or three grid-dimension selections in a row (isel on n_face / n_node / n_edge, subset), the first never a prefix
+    [0..k], with nothing / xarray operations / copies / a transposition between them, for every centring"""
+    progs = []
+    between = [[], [dict(m="arith", f="add1")], [dict(m="copy", how="copy_default")], [dict(m="transpose", how="T")],
+               [dict(m="arith", f="rmul2"), dict(m="copy", how="copy_shallow")]]
+    for centre in ("n_face", "n_node", "n_edge"):
+        for gid in (0, 1, 2):
+            cnt = wc[gid]
+            nf = cnt[2]
+            firsts = [dict(m="ux_isel", dim="n_face", idx=[nf - 1, 1, nf - 2][: min(3, nf)]),
+                      dict(m="ux_isel", dim="n_face", idx=sorted(rng.sample(range(1, nf), min(3, nf - 1)))),
+                      dict(m="ux_isel", dim="n_node", idx=[cnt[0] - 1]),
+                      dict(m="ux_isel", dim="n_edge", idx=[cnt[1] - 1, 2], as_array=True),
+                      dict(m="ux_subset", center=[rng.choice([-20.0, 35.0, 150.0]), rng.choice([-30.0, 25.0])], k=3,
+                           element="face centers")]
+            seconds = [dict(m="ux_isel", dim="n_face", idx=[1], wrap=True), dict(m="ux_isel", dim="n_face", idx=[1, 0], wrap=True),
+                       dict(m="ux_isel", dim="n_node", idx=[2], wrap=True),
+                       dict(m="ux_isel", dim="n_edge", idx=[1, 0], as_array=True, wrap=True),
+                       dict(m="ux_subset", center=[0.0, 0.0], k=1, element="nodes")]
+            sp = gen_start(rng, wc, gid, centre=centre, dtype=rng.choice(["float64", "int64"]), gcoord=False,
+                           lead=rng.choice([[], [["t", 2]], [["t", 3]]]))
+            for a in firsts:
+                for b in seconds:
+                    mid = rng.choice(between)
+                    if mid and mid[0].get("m") == "transpose" and not sp["lead"]:
+                        mid = []
+                    progs.append(dict(base, start=sp, program=[a] + mid + [b]))
+            # three selections
+            progs.append(dict(base, start=sp, program=[firsts[0], seconds[1], dict(m="ux_isel", dim="n_face", idx=[1], wrap=True)]))
+            progs.append(dict(base, start=sp, program=[firsts[1], dict(m="arith", f="add1"), seconds[1],
+                                                       dict(m="copy", how="copy_data"),
+                                                       dict(m="ux_isel", dim="n_node", idx=[0], wrap=True)]))
+    return progs
+
+
 def copy_chains(env, rng, base, wc):
     """every way of copying, after 0, 1 and 2 other operations (incl. uxarray's own), for every centring"""
     progs = []
@@ -1258,6 +1378,10 @@ def run(ctx):
         "isel on a grid dimension and subset.nearest_neighbor are generated for EVERY layout (element dimension last or not: after "
         "transpose / expand_dims / concat+transpose), their result is judged by the Lean step spec (by-name clause), values are "
         "compared with plain xarray's isel by name (face data, n_face) and with isel-then-transpose; a raise is a failure",
+        "grid-dimension selections are also generated ON SUB-GRIDS (two or three selections in a row, first one not a prefix, "
+        "arbitrary operations between them); their values are judged for every centring against plain xarray's isel by name at "
+        "the indices obtained by identifying each element of the attached sub-grid in the current grid by its node coordinates "
+        "(public API; independent of the index lists the library records)",
         "integrate / gradient / difference / topological_* / remap / get_dual are only generated where the model defines them (one "
         "grid dimension, LAST — DESIGN 'Interpretation choices'; no coordinate along it; not on a sub-grid produced by Grid.isel) — "
         "raises outside that domain are counted in `ux_ops_raising_outside_model_domain`, not judged",
@@ -1278,10 +1402,13 @@ def run(ctx):
         rounds = ctx.n(1, 6)
         for rnd in range(rounds):
             ms = choose_meshes(rng)
-            grids = [meshes.to_grid(m, env.ux) for m in ms]
+            grids = [warm_grid(meshes.to_grid(m, env.ux)) for m in ms]
+            warm_vars = [grid_vars(g) for g in grids]
             wc = [counts_of(g) for g in grids]
             closed = [m.closed for m in ms]
-            base = dict(grids=[mesh_to_json(m) for m in ms], _grids_cache=grids)
+            # programs share the WARM grids of the round; `cold` programs build their own fresh grids
+            base = dict(grids=[mesh_to_json(m) for m in ms], _grids_cache=grids, warm=True)
+            cold = dict(grids=base["grids"], warm=False)
             for i, m in enumerate(ms):
                 ctx.hit(f"grid:{m.kind or 'mesh'}:{'closed' if m.closed else 'partial'}")
             for inp in directed(env, rng, base, wc, closed):
@@ -1290,15 +1417,29 @@ def run(ctx):
                 run_program(env, inp, out, tag="layout")
             for inp in copy_chains(env, rng, base, wc):
                 run_program(env, inp, out, tag="copies")
+            for inp in selection_chains(env, rng, base, wc):
+                run_program(env, inp, out, tag="chains")
+                if rng.random() < 0.25:
+                    run_program(env, dict(inp, warm=False), out, tag="chains-cold")
+                    ctx.hit("cold-grids")
             nprog = ctx.n(150, 1500)
             chooser = make_chooser(env, rng, 3)
             for _ in range(nprog):
                 sp = gen_start(rng, wc, rng.randrange(3))
                 depth = rng.randint(2, 6)
-                done = run_program(env, dict(base, start=sp), out, tag="random", chooser=chooser, depth=depth)
+                if rng.random() < 0.15:
+                    ctx.hit("cold-grids")
+                    done = run_program(env, dict(cold, start=sp), out, tag="random-cold", chooser=chooser, depth=depth)
+                else:
+                    done = run_program(env, dict(base, start=sp), out, tag="random", chooser=chooser, depth=depth)
                 ctx.hit("program-length:%d" % len(clean_program(done)))
             minimise(env, out)
             flush(ctx, out)
+            grew = {i: sorted(set(grid_vars(g)) - set(v)) for i, (g, v) in enumerate(zip(grids, warm_vars))
+                    if set(grid_vars(g)) - set(v)}
+            if grew:
+                ctx.notes.append(f"shared warm grids gained variables during the round (replays may see a colder grid): {grew}")
+                ctx.hit("warm-state-not-a-fixed-point")
         # ---- the observed table vs the table the as-is theorems are about
         asis = common.Tok(ctx.driver.ask("C10.asis")).ints()
         obs = {k: env.table.get(k) for k in KINDS}
